@@ -394,6 +394,9 @@ type ClientOpts struct {
 	Extra      http.Header
 	ExtraQuery string
 	NoEIO      bool // leave the EIO parameter out
+	// PreHeader: response headers a host application's handler or middleware has already set on the
+	// ResponseWriter when the engine gets this client's requests
+	PreHeader http.Header
 }
 
 func (o ClientOpts) eio() string {
@@ -481,6 +484,7 @@ func (c *PollClient) decodeBody(s ExSnap) ([]Pkt, error) {
 func (c *PollClient) StartHandshake() *Exchange {
 	spec := NewReq("GET", c.W.Path, c.query(false))
 	spec.Header = c.hdr()
+	spec.PreHeader = c.O.PreHeader
 	c.HS = Do(c.W.Srv, spec)
 	return c.HS
 }
@@ -531,6 +535,7 @@ func (c *PollClient) StartPoll() *Exchange { return c.StartPollMod(nil) }
 func (c *PollClient) StartPollMod(mod func(*ReqSpec)) *Exchange {
 	spec := NewReq("GET", c.W.Path, c.query(true))
 	spec.Header = c.hdr()
+	spec.PreHeader = c.O.PreHeader
 	if mod != nil {
 		mod(&spec)
 	}
@@ -607,6 +612,7 @@ func (c *PollClient) StartPostRaw(body []byte, ct string, mod func(*ReqSpec)) *E
 	}
 	spec.Body = body
 	spec.HasBody = true
+	spec.PreHeader = c.O.PreHeader
 	if mod != nil {
 		mod(&spec)
 	}
